@@ -413,31 +413,38 @@ fn main() {
             // Relaxed counters only: logging must not add a happens-before edge that could hide a race
             let mismatches = Arc::new(AtomicU64::new(0));
             let first_bad = Arc::new(AtomicU64::new(u64::MAX));
+            // global completion order of the calls (Relaxed: adds no happens-before edge): the visible trace of the schedule
+            let order = Arc::new(AtomicU64::new(0));
+            let mut logs: Vec<Vec<u64>> = Vec::new();
             let mut hs = Vec::new();
             let mut off = 0;
             for (t, p) in plan.into_iter().enumerate() {
-                let (b, mm, fb) = (barrier.clone(), mismatches.clone(), first_bad.clone());
+                let (b, mm, fb, ord) = (barrier.clone(), mismatches.clone(), first_bad.clone(), order.clone());
                 let exp: Vec<u64> = expected[off..off + p.len()].to_vec();
                 off += p.len();
                 let h = std::thread::spawn(move || {
                     b.wait();
+                    let mut log = Vec::new();
                     for (i, (k, tag)) in p.into_iter().enumerate() {
                         let got = op(k, tag);
+                        log.push(ord.fetch_add(1, Ordering::Relaxed));
                         if got != exp[i] {
                             mm.fetch_add(1, Ordering::Relaxed);
                             fb.fetch_min(t as u64 * 1000 + i as u64, Ordering::Relaxed);
                         }
                     }
+                    log
                 });
                 if seq {
-                    h.join().expect("thread panicked");
+                    logs.push(h.join().expect("thread panicked"));
                 } else {
                     hs.push(h);
                 }
             }
             for h in hs {
-                h.join().expect("thread panicked");
+                logs.push(h.join().expect("thread panicked"));
             }
+            println!("ORDER {}", logs.iter().map(|l| l.iter().map(|x| x.to_string()).collect::<Vec<_>>().join(",")).collect::<Vec<_>>().join(" | "));
             let m = mismatches.load(Ordering::Relaxed);
             if m != 0 {
                 let fb = first_bad.load(Ordering::Relaxed);
